@@ -3,12 +3,12 @@ import math
 import numpy as np
 from hypothesis import strategies as st
 
-from ..core import Law, HarnessError
+from ..core import Law
 from .. import gen
 from ..gen import fl
 from ..num import mink
 from ..oracles import isom as I
-from .c02 import (SHAPES, sdir, kpoint, kpoints, _tv_fields, build_tv, _fo_kwargs, _normals,
+from .c02 import (SHAPES, sdir, kpoints, _tv_fields, build_tv, _fo_kwargs, _normals,
                   nparts, _normal_array)
 
 from geometry_tools import hyperbolic
@@ -16,7 +16,7 @@ from geometry_tools.hyperbolic import Point, TangentVector, Polygon
 
 # findings reported to the coordinator and not yet in known_findings.json: kept out of the
 # search (counted under `excluded`) until repaired or listed as open
-PENDING_FINDINGS = {"C13-angle-nan-for-parallel-vectors"}
+PENDING_FINDINGS = set()
 
 
 def pending(fid):
@@ -26,14 +26,16 @@ def pending(fid):
     return fid in PENDING_FINDINGS and os.environ.get("VERIF_PENDING", "1") != "0"
 
 
-RULE = ("dimension n in 2..5 (1 also generated, counted trivial), composite shapes of rank 0..2; "
-        "basepoints = Klein points (direction x radius, simple rational points mixed in) given "
-        "to the library as projective representatives with factors in +-[0.2,5]; tangent "
+RULE = ("dimension n in 2..5 (n = 1 is also generated for origin_to / timelike_to / "
+        "spacelike_to and counted trivial), composite shapes of rank 0..2; basepoints = Klein "
+        "points (direction x radius, simple rational points mixed in) given to the library as "
+        "projective representatives with factors in +-[0.2,5] (positive factors only under "
+        "tangent vectors, where the sign of the representative is part of the datum); tangent "
         "vectors = harness-built unit tangent (boost of a unit direction, lattice directions "
         "mixed in) x length in [0.1,10] plus a multiple of the basepoint that the library must "
         "project away; t in [-6,6] incl. 0, +-1e-9, +-6; point pairs q = exp_p(s u) with s "
-        "log-uniform in [1e-3,8]; triangles by vertex angle theta in [0.05, pi-0.05] and side "
-        "lengths in [0.05,4]; regular n-gons n in 3..40 by interior angle in (0,(n-2)pi/n) "
+        "log-uniform in [1e-3,8] (representatives of either sign); triangles by vertex angle "
+        "theta in [0.05, pi-0.05] or exactly 0 / pi and side lengths in [0.05,4]; regular n-gons n in 3..40 by interior angle in (0,(n-2)pi/n) "
         "with 2% margin or by radius in [0.05,6], dimension 2..4.  All distances and angles "
         "on the checking side are harness closed forms on the hyperboloid.  non-trivial = "
         "n >= 3, or composite, or t < 0, or polygon with >= 5 vertices, or force_oriented "
@@ -43,13 +45,16 @@ ASSUMPTIONS = [
     "basepoints within 2.5 (point_along), 2 (tangent_towards, law of cosines) or 3.8 "
     "(origin_to) of the origin; tolerances scale with the Euclidean size cosh(d) of the "
     "hyperboloid representatives involved",
-    "triangles have vertex angle in [0.05, pi-0.05]; exactly parallel / antiparallel tangent "
-    "vectors (TangentVector.angle returns NaN for ~25% of them) are excluded while the "
-    "reported finding C13-angle-nan-for-parallel-vectors is pending",
+    "triangles have vertex angle in [0.05, pi-0.05] or exactly 0 / pi (degenerate; the angle is "
+    "then an arccos at +-1 and is compared with the tolerance sqrt(2 delta) that conditioning "
+    "allows)",
     "TangentVector.get_base_tangent(n, shape) with a non-empty shape raises (same family as "
     "regular_polygon with an array of radii, which DESIGN lists as not claimed): the single "
     "base tangent is used and broadcast",
     "regular_polygon is called with scalar radius/angle only",
+    "tangent-vector laws run in dimension >= 2 as the statement says: in H^1 the frame of a "
+    "backward-pointing tangent vector is orientation reversing, and origin_to(force_oriented="
+    "True) - the default, also used by point_along - then reverses the direction",
     "float64 only",
 ]
 
@@ -62,8 +67,8 @@ CLAIM = dict(
           "harness on the hyperboloid; regular polygons are measured vertex by vertex "
           "(radius, all chords, interior angles from Minkowski products) and the radius/angle "
           "formulas are compared with cosh r = cot(pi/n) cot(a/2). Refutes, never proves."),
-    note="TangentVector.angle of exactly parallel/antiparallel vectors (NaN) is excluded as a "
-         "reported finding.",
+    note="TangentVector.angle of exactly parallel/antiparallel vectors (NaN before 4a46d2f) is "
+         "part of the search and pinned as a regression.",
     technique="property-based testing (Hypothesis) against closed-form hyperbolic trigonometry",
 )
 
@@ -457,9 +462,15 @@ def body_cosine(case, ctx):
     ctx.check(np.all(np.isfinite(ang)), "angle is finite", ang=ang, theta=th)
     CP = C_of(P)
     g = CP ** 2 * np.maximum(C_of(Q), C_of(R)) / np.minimum(np.minimum(b, c), 1.0)
-    sin_th = np.maximum(np.sin(th), 1e-3)
+    sin_th = np.sin(th)
+
+    def ang_tol(growth):
+        # the cosine carries delta ~ 1e-10 * growth; the angle min(sqrt(2 delta), delta/sin)
+        delta = 1e-10 * growth
+        return 1e-10 + 4 * np.minimum(np.sqrt(2 * delta), delta / np.maximum(sin_th, 1e-300))
+
     ctx.small("angle at p equals the constructed angle",
-              (ang - th) / (1e-9 * g / sin_th), 1.0, ang=ang, theta=th)
+              (ang - th) / ang_tol(g), 1.0, ang=ang, theta=th)
     # hyperbolic law of cosines with harness distances
     a = I.dist_h(Q, R)
     bb = I.dist_h(P, Q)
@@ -470,7 +481,7 @@ def body_cosine(case, ctx):
               (lhs - rhs) / (1e-9 * g * np.cosh(bb) * np.cosh(cc)), 1.0, side_a=a, side_b=bb,
               side_c=cc, ang=ang)
     ang2 = np.asarray(tr.angle(tq), dtype=float)
-    ctx.small("angle is symmetric", (ang2 - ang) / (1e-9 * g / sin_th), 1.0)
+    ctx.small("angle is symmetric", (ang2 - ang) / ang_tol(g), 1.0)
     # raw (non-unit, non-tangential) tangent vectors at p: angle() normalises and projects
     l1 = np.array(case["l1"], dtype=float).reshape(shape)
     l2 = np.array(case["l2"], dtype=float).reshape(shape)
@@ -480,7 +491,7 @@ def body_cosine(case, ctx):
     ang3 = np.asarray(t1.angle(t2), dtype=float)
     gr = CP ** 2 * (1.0 + np.abs(nc) / np.minimum(l1, l2))
     ctx.small("angle of raw tangent vectors equals the constructed angle",
-              (ang3 - th) / (1e-9 * gr / sin_th), 1.0, ang=ang3, theta=th)
+              (ang3 - th) / ang_tol(gr), 1.0, ang=ang3, theta=th)
 
 
 def nt_cosine(labels):
